@@ -1330,6 +1330,20 @@ def _(e):
     return "tensor.__setitem__", X.__setitem__, (subs, [1.0, 2.0, 3.0]), {}, X, {}
 
 
+for _cls in ("tensor", "sptensor"):
+    def _mkDown(cls):
+        @row(f"{cls}.__setitem__:downward-slice-in-a-mode-the-tensor-does-not-have", (1, 2, 3))
+        def _(e, cls=cls):
+            # a new trailing mode is sized by the slice that names it; a downward slice names no extent
+            X = e.holder(cls)
+            a = int(e.rng.integers(1, 4))
+            # (with an explicit stop: an open one reads the absent mode as a mode of size 1 in the dense class)
+            sl = [slice(a, 0, -1), slice(a, 0, -2)][int(e.rng.integers(0, 2))]
+            key = tuple([0] * e.N + [sl])
+            return f"{cls}.__setitem__", X.__setitem__, (key, 5.0), {}, X, {}
+    _mkDown(_cls)
+
+
 @row("sptensor.__setitem__:sparse-rhs-does-not-fit-the-slice", (2, 3))
 def _(e):
     # a slice that names fewer (or more) positions than the sparse right-hand side has in that mode
